@@ -10,7 +10,10 @@
 Tie (every run): valid serializations produced by the C11 generator are truncated at every byte
 offset and damaged token by token (deletion, same-length numeric substitution, sign flip,
 non-numeric token); each damaged stream is fed to the REAL load on a target holding unrelated
-valid content under ASan/UBSan.  Own oracle: deep snapshot of the target before/after.  The
+valid content under ASan/UBSan.  Own oracle: deep snapshot of the target before/after.  Damaged model
+files go through serialize::lambda::load (stream constructors): the only documented outcomes are a
+model, nullptr and exception::data_format; a loaded model is saved again and compared with the Lean
+model's load-then-save.  The
 success/failure verdict and, on success, the loaded object are compared with the model's.
 """
 import concurrent.futures as cf
@@ -26,7 +29,7 @@ sys.path.insert(0, os.path.join(C.ROOT, "tools"))
 import translate_loads  # noqa: E402
 from cxx2lean import Refuse  # noqa: E402
 
-TYPES = list(K11.SIMPLE) + ["imep", "team", "pop", "summ"]
+TYPES = list(K11.SIMPLE) + ["imep", "team", "pop", "summ", "lam"]
 # objects per type, max stream length for exhaustive prefixes, token mutations per object: (quick, thorough)
 BUDGET = {
     "hash": ((100, 600, 120), (800, 6000, 1000)),
@@ -40,8 +43,9 @@ BUDGET = {
     "team": ((40, 600, 160), (300, 6000, 1000)),
     "pop": ((40, 600, 200), (300, 6000, 1200)),
     "summ": ((80, 600, 160), (600, 6000, 1000)),
+    "lam": ((60, 600, 200), (480, 6000, 1200)),
 }
-FAILISH = ("fail", "exc:bad_alloc", "exc:length_error")
+FAILISH = ("fail", "exc:bad_alloc", "exc:length_error", "null", "exc:data_format")
 
 
 def regen(chk, broken):
@@ -137,14 +141,14 @@ def run(chk, replay=None):
     if replay:
         r = json.load(open(replay))["replay"]
         t = r["line"].split()
-        reqs.append((t[1], "replay", int(t[2]), t[3], None))
+        reqs.append((t[1], "replay", int(t[2]), t[3], None, None))
     else:
         cdir = os.path.join(C.ROOT, "corpus", "C12")
         if os.path.isdir(cdir):
             for f in sorted(os.listdir(cdir)):
                 if f.endswith(".json"):
                     t = json.load(open(os.path.join(cdir, f)))["line"].split()
-                    reqs.append((t[1], "corpus", int(t[2]), t[3], None))
+                    reqs.append((t[1], "corpus", int(t[2]), t[3], None, None))
         for typ in TYPES:
             nobj, max_exh, n_tok = BUDGET[typ][tier_i]
             rc, objs, se = K11.gen_objects(ser, chk.seed, nobj, typ)
@@ -154,15 +158,28 @@ def run(chk, replay=None):
                 data = bytes.fromhex(o["hex"])
                 chk.count("source_objects:" + typ)
                 ctx[typ] = o.get("ctx", "")
-                reqs.append((typ, "intact", rng.next() % 1000003, o["hex"], i))
+                # models: no target, the second field selects the problem (symbol set) of the model
+                tsf = (lambda: o["tags"].get("prob", 0)) if typ == "lam" else (lambda: rng.next() % 1000003)
+                reqs.append((typ, "intact", tsf(), o["hex"], i, o.get("ctx", "")))
                 for kind, b in mutations(rng, data, max_exh, n_tok):
-                    reqs.append((typ, kind, rng.next() % 1000003, hexs(b), i))
+                    reqs.append((typ, kind, tsf(), hexs(b), i, o.get("ctx", "")))
 
     symtab = {}
-    if any(t in K11.NEEDS_CTX and t not in ctx for t, _, _, _, _ in reqs):     # replay / corpus lines
+    if any(c is None and t in K11.NEEDS_CTX for t, _, _, _, _, c in reqs):     # replay / corpus lines
         _, o1, _ = K11.gen_objects(ser, 1, 1, "imep")
         symtab = {t: (o1[0]["ctx"] if o1 else "") for t in K11.NEEDS_CTX}
-    lines = [f"ld {t} {ts} {hx}" for t, _, ts, hx, _ in reqs]
+    lamtab = {}
+    if any(c is None and t == "lam" for t, _, _, _, _, c in reqs):
+        _, ol, _ = K11.gen_objects(ser, 1, 60, "lam")
+        lamtab = {o["tags"].get("prob"): o["ctx"] for o in ol}
+
+    def ctx_of(req):
+        t, _, ts, _, _, c = req
+        if c is not None:
+            return c
+        return lamtab.get(ts, "") if t == "lam" else symtab.get(t, "")
+
+    lines = [f"ld {t} {ts} {hx}" for t, _, ts, hx, _, _ in reqs]
     shards = max(1, min(8, len(lines) // 4000))
     chk.cov["requests"] = len(lines)
 
@@ -171,7 +188,8 @@ def run(chk, replay=None):
         return C.run_lines(exe, sub, timeout=3000)
 
     def model(idx):
-        sub = [f"load {t} {hx} {ctx.get(t) or symtab.get(t, '')}" for t, _, _, hx, _ in reqs[idx::shards]]
+        sub = [(f"resave lam {r[3]} {ctx_of(r)}" if r[0] == "lam" else f"load {r[0]} {r[3]} {ctx_of(r)}")
+               for r in reqs[idx::shards]]
         return C.run_driver("c12_driver", sub) if drv_ok else None
 
     with cf.ThreadPoolExecutor(2 * shards) as ex:
@@ -193,7 +211,7 @@ def run(chk, replay=None):
                 mod_ans[i + j * shards] = v
 
     ndis = 0
-    for g, (typ, kind, ts, hx, src) in enumerate(reqs):
+    for g, (typ, kind, ts, hx, src, _c) in enumerate(reqs):
         ca = cpp_ans[g] or "skipped"
         chk.seen((typ, hx), nontrivial=True)
         chk.count(f"{typ}:{kind}")
@@ -226,6 +244,7 @@ def run(chk, replay=None):
             c_ok = verdict == "ok"
             agree = (m_ok == c_ok)
             if agree and m_ok:
+                # plain types: the loaded object; models: the bytes of the reloaded model saved again
                 agree = ma[3:].split(" | ")[0].strip() == after.strip()
             if not agree:
                 ndis += 1
